@@ -1624,9 +1624,11 @@ class VacancyMediated(object):
             om2_outer = self.vkinetic.outer[:, :, om2_sv_indices, :][:, :, :, om2_sv_indices]
             D0ss_correct = np.dot(np.dot(om2_outer, bS), np.dot(om2_inv, bS)) / self.N
             D0ss = np.zeros_like(D0ss)  # exact cancellation of bare term
-            D0sv = np.dot(np.dot(om2_outer, bV), np.dot(om2_inv, bS)) / self.N
-            D2vv = (np.dot(np.dot(om2_outer, bV), np.dot(om2_inv, bV)) +
-                    2 * np.dot(np.dot(om2_outer, bV2), np.dot(om2_inv, bV))) / self.N
+            # index order as everywhere else: first Cartesian index with the first vector (vacancy bias for Lsv); the outer
+            # products between different vector stars are not symmetric matrices in low-symmetry crystals
+            D0sv = np.dot(np.dot(om2_outer, np.dot(om2_inv, bS)), bV) / self.N
+            D2vv_cross = np.dot(np.dot(om2_outer, bV2), np.dot(om2_inv, bV))
+            D2vv = (np.dot(np.dot(om2_outer, bV), np.dot(om2_inv, bV)) + D2vv_cross + D2vv_cross.T) / self.N
         else:
             # update with omega2 ("small" omega2):
             G = np.dot(np.linalg.inv(np.eye(self.vkinetic.Nvstars) + np.dot(G, om2)), G)
